@@ -18,6 +18,8 @@ import itertools, os, struct, time
 import vlib
 import histlib
 
+LAST_INDEX_COVERAGE = {}
+
 EXT = [1, 2, 3, 5, 7, 8, 13, 16, 17, 31]
 ESZ = [1, 2, 4, 8, 3]
 DT = {  # name -> (class, size, class bit field as the writer's registry records it)
@@ -752,6 +754,12 @@ def run_unit(ctx):
     nviol = len(viol)
     viol.sort(key=lambda v: bool(v.get("nofail")))
     viol = viol[:25]
+    global LAST_INDEX_COVERAGE
+    LAST_INDEX_COVERAGE = dict(index_cases=len(iw_terms), max_entries=max_entries, malformed_cases=sum(malformed.values()),
+                               malformed_classes=dict(ok=malformed[0], err=malformed[1], panic=malformed[2]), tree_cases=len(tree_cases),
+                               entries_used_65535_classes=used65535,
+                               entry_counts=sorted({len(c["entries"]) for c in idxc}),
+                               ranks=sorted({c["dim"] for c in idxc}), unit_wall_s=round(time.time() - t0, 1))
     return dict(violations=viol, violations_total=nviol, evaluations=evaluations, distinct=len(distinct), samples=samples[:8], known=known,
                 coq_cases=len(tile_terms) + len(conv_terms) + len(encint_terms) + len(encstr_terms) + len(decstr_terms) + len(iw_terms) + len(ir_terms),
                 index_cases=len(iw_terms), max_entries=max_entries, malformed_cases=sum(malformed.values()),
